@@ -30,7 +30,8 @@ FUNCTIONS = [
 ]
 BOUNDS = {
     "quick": "all 2^(H*W)-1 masks (>=1 unmasked pixel) of every shape with H*W <= 9 (kernels) / <= 8 (classes); 1D masks of length <= 6; "
-             "native/slim values, both storage modes: symbolic reals",
+             "native/slim values, both storage modes: symbolic reals; plus listed larger masks (1D lengths 17-40, 2D up to 5x6) and "
+             "C / Fortran / transposed-view memory layouts of the mask",
     "thorough": "all masks of every shape with H*W <= 12 (kernels and classes); 1D masks of length <= 8",
     "merged": "additionally the slim/native/index kernels with the mask bits left symbolic (merge interpreter, ONE path = all 2^(H*W) masks "
               "and all real values): shape 3x4 (quick) plus 4x4, 3x5 (thorough; 5x5 did not finish within 30 min)",
@@ -46,11 +47,20 @@ def _ref(mask):
     return pos
 
 
-def body_kernels_2d(inp, H, W):
+def _layout(mask, layout):
+    """same booleans, other memory layout (seed C01-f: row-major order must not depend on the array's strides)"""
+    if layout == "F":
+        return np.asfortranarray(mask)
+    if layout == "T":
+        return np.ascontiguousarray(mask.T).T        # transposed view of a C array (Fortran strides, not flagged owned)
+    return mask
+
+
+def body_kernels_2d(inp, H, W, layout="C"):
     from autoarray.structures.arrays import array_2d_util
     from autoarray.structures.grids import grid_2d_util
     from autoarray.mask import mask_2d_util
-    mask = np.array(inp["mask"], dtype=bool).reshape(H, W)
+    mask = _layout(np.array(inp["mask"], dtype=bool).reshape(H, W), layout)
     v = np.asarray(inp["v"]).reshape(H, W)
     g = np.asarray(inp["g"]).reshape(H, W, 2)
     pos = _ref(mask)
@@ -101,17 +111,17 @@ def _sym_mask(ctx, shape, name="m"):
     return mask
 
 
-def case_kernels_2d(ctx, H, W):
+def case_kernels_2d(ctx, H, W, layout="C"):
     mask = _sym_mask(ctx, (H, W))
     ctx.set_case(mask=mask.tolist())
     inputs = {"mask": mask, "v": V.real_array("v", (H, W)), "g": V.real_array("g", (H, W, 2)),
               "s": V.real_array("s", (H * W,)), "gs": V.real_array("gs", (H * W, 2))}
-    hx.run_body(ctx, body_kernels_2d, inputs, {"H": H, "W": W}, validate_every=16)
+    hx.run_body(ctx, body_kernels_2d, inputs, {"H": H, "W": W, "layout": layout}, validate_every=16)
 
 
-def body_classes_2d(inp, H, W):
+def body_classes_2d(inp, H, W, layout="C"):
     import autoarray as aa
-    mask = np.array(inp["mask"], dtype=bool).reshape(H, W)
+    mask = _layout(np.array(inp["mask"], dtype=bool).reshape(H, W), layout)
     v = np.asarray(inp["v"]).reshape(H, W)
     g = np.asarray(inp["g"]).reshape(H, W, 2)
     pos = _ref(mask)
@@ -212,12 +222,12 @@ def body_classes_2d(inp, H, W):
     return A, E
 
 
-def case_classes_2d(ctx, H, W):
+def case_classes_2d(ctx, H, W, layout="C"):
     mask = _sym_mask(ctx, (H, W))
     ctx.set_case(mask=mask.tolist())
     inputs = {"mask": mask, "v": V.real_array("v", (H, W)), "g": V.real_array("g", (H, W, 2)),
               "s": V.real_array("s", (H * W,)), "gs": V.real_array("gs", (H * W, 2)), "c": V.real("c")}
-    hx.run_body(ctx, body_classes_2d, inputs, {"H": H, "W": W}, validate_every=32)
+    hx.run_body(ctx, body_classes_2d, inputs, {"H": H, "W": W, "layout": layout}, validate_every=32)
 
 
 def body_1d(inp, N):
@@ -275,6 +285,41 @@ def case_1d(ctx, N):
     hx.run_body(ctx, body_1d, inputs, {"N": N}, validate_every=8)
 
 
+LISTED_1D = {
+    "alt17": [i % 2 == 0 for i in range(17)], "ends20": [i in (0, 1, 18, 19) for i in range(20)],
+    "block33": [10 <= i < 25 for i in range(33)], "thirds24": [i % 3 == 1 for i in range(24)],
+    "none18": [False] * 18, "prime40": [i in (2, 3, 5, 7, 11, 13, 17, 19, 23, 29, 31, 37) for i in range(40)],
+}
+
+
+def case_1d_listed(ctx, name):
+    """longer 1D masks from a list (the all-masks enumeration stops at length 6/8): values stay symbolic (seed C01-e)"""
+    mask = np.array(LISTED_1D[name], dtype=bool)
+    N = mask.shape[0]
+    ctx.set_case(mask_name=name)
+    inputs = {"mask": mask, "v": V.real_array("v", (N,)), "s": V.real_array("s", (N,))}
+    hx.run_body(ctx, body_1d, inputs, {"N": N}, validate_every=1)
+
+
+LISTED_2D = {
+    "ring5x5": [[not (1 <= y <= 3 and 1 <= x <= 3) or (y, x) == (2, 2) for x in range(5)] for y in range(5)],
+    "diag4x6": [[(x + y) % 3 != 0 for x in range(6)] for y in range(4)],
+    "lastcol6x3": [[x != 2 for x in range(3)] for y in range(6)],
+    "full3x7": [[False] * 7 for _ in range(3)],
+    "two_blobs5x6": [[not ((y < 2 and x < 2) or (y > 2 and x > 3)) for x in range(6)] for y in range(5)],
+}
+
+
+def case_listed_2d(ctx, name, layout="C", kind="kernels"):
+    mask = np.array(LISTED_2D[name], dtype=bool)
+    H, W = mask.shape
+    ctx.set_case(mask_name=name)
+    inputs = {"mask": mask, "v": V.real_array("v", (H, W)), "g": V.real_array("g", (H, W, 2)),
+              "s": V.real_array("s", (H * W,)), "gs": V.real_array("gs", (H * W, 2)), "c": V.real("c")}
+    body = body_kernels_2d if kind == "kernels" else body_classes_2d
+    hx.run_body(ctx, body, inputs, {"H": H, "W": W, "layout": layout}, validate_every=1)
+
+
 BODIES = {"case_kernels_2d": body_kernels_2d, "case_classes_2d": body_classes_2d, "case_1d": body_1d}
 
 
@@ -291,6 +336,16 @@ def _cases(tier):
                 out.append(("case_classes_2d", {"H": H, "W": W}, sp))
     for N in range(1, cap_1 + 1):
         out.append(("case_1d", {"N": N}))
+    for nm in LISTED_1D:
+        out.append(("case_1d_listed", {"name": nm}))
+    for nm in LISTED_2D:
+        for lay in ("C", "F", "T"):
+            out.append(("case_listed_2d", {"name": nm, "layout": lay, "kind": "kernels"}))
+            out.append(("case_listed_2d", {"name": nm, "layout": lay, "kind": "classes"}))
+    for (H, W) in [(2, 3), (3, 2), (3, 3)] + ([] if tier == "quick" else [(2, 4), (4, 2), (3, 4)]):
+        for lay in ("F", "T"):
+            out.append(("case_kernels_2d", {"H": H, "W": W, "layout": lay}))
+            out.append(("case_classes_2d", {"H": H, "W": W, "layout": lay}))
     out.sort(key=lambda c: -(c[1].get("H", 1) * c[1].get("W", c[1].get("N", 1))))
     for (H, W) in ([(3, 4)] if tier == "quick" else [(3, 4), (4, 4), (3, 5)]):
         out.append(("case_merged", {"H": H, "W": W}, {"timeout_ms": 60000 if tier == "quick" else 180000}))
@@ -298,7 +353,18 @@ def _cases(tier):
 
 
 def replay(cand):
-    return hx.replay_body(BODIES[cand["case_fn"]], cand)
+    cand = dict(cand)
+    kw = dict(cand["case_kwargs"])
+    if cand["case_fn"] == "case_1d_listed":
+        body, kw = body_1d, {"N": len(LISTED_1D[kw["name"]])}
+    elif cand["case_fn"] == "case_listed_2d":
+        m = np.array(LISTED_2D[kw["name"]])
+        body = body_kernels_2d if kw.get("kind") == "kernels" else body_classes_2d
+        kw = {"H": m.shape[0], "W": m.shape[1], "layout": kw.get("layout", "C")}
+    else:
+        body = BODIES[cand["case_fn"]]
+    cand["case_kwargs"] = kw
+    return hx.replay_body(body, cand)
 
 
 # ---------------------------------------------------------------------------- merged kernels: all masks of a shape in ONE path
